@@ -225,6 +225,14 @@ func VerifC02CompareInt64Uint64Boundary() {
 	nd.Observe(got)
 	lt := a < 0 || uint64(a) < b
 	eq := a >= 0 && uint64(a) == b
+	// Defect class of the known finding (see known_findings.txt): the two operands are
+	// different integers that round to the same float64.
+	// Cells of that class assert under their own id, so that the recorded finding
+	// does not mask any other cell of this table.
+	if a >= 0 && uint64(a) != b && float64(a) == float64(b) {
+		nd.Assert("c02.cmp.int64-uint64.boundary.3vl.float64-collision", got == c02Rel(op, false, false, lt, eq))
+		return
+	}
 	nd.Assert("c02.cmp.int64-uint64.boundary.3vl", got == c02Rel(op, false, false, lt, eq))
 }
 
